@@ -25,11 +25,27 @@ package pathbadger
 //@   precall badger/v4\.WriteBatch\)\.Delete$ :: exists && version < lastFinalizedVersion
 //@   note data is removed only for a version that is finalized, is the earliest retained one and is not the last finalized one, and never on a read-only database or while a multipart restore is in progress: every other finalized version is left alone by Prune
 
+//@ ghost var GPbDel int
+
 //@ func badgerNodeDB.Finalize
 //@   props C06
 //@   requires d != nil
 //@   precall badger/v4\.Txn\)\.NewIterator$ :: defined(pendingPrefix) ==> keyId(pendingPrefix) == keyOf(pendingNodeKeyFmt, version)
+//@   loop 11 invariant GPbDel >= old(GPbDel) + idx()
+//@   loop 12 invariant GPbDel >= old(GPbDel) + len(removeRootKeys)
+//@   loop 13 invariant GPbDel >= old(GPbDel) + len(removeRootKeys)
+//@   precall pathbadger\.metadata\)\.setLastFinalizedVersion$ :: GPbDel >= old(GPbDel) + len(removeRootKeys)
+//@   note a candidate root of the version that is NOT finalized is removed as a root as well: Finalize keeps the list of the root-node keys of the discarded roots and has issued one successful delete for each of them by the time it records the version as finalized (root existence - HasRoot, GetRootsForVersion, the GetNode root check - is exactly that key). On the pinned tree the list did not exist: the discarded root stayed "present" while its nodes were removed or replaced, and reading it returned the FINALIZED root's contents: finding F13, fixed. (What the contract cannot say with call counters alone is that the list holds the key of every discarded root; the replay test covers that.)
 //@   note the sweep that deletes the temporary (pending, seqNo > 0) nodes at the end of Finalize is confined to the version being finalized: candidate roots of LATER versions that were committed early keep their own pending nodes until their own finalization (seed C06_f)
+
+// ---- serving write logs (C13): only for a root whose nodes are at the finalized keys ----
+
+//@ func badgerNodeDB.GetWriteLog
+//@   props C13
+//@   requires d != nil
+//@   precall pathbadger\.metadata\)\.getPendingRootSeqNo$ :: argIs(0, endRoot.Version) && argIs(1, endRootHash)
+//@   ensures-local err == nil ==> defined(seqNo) && seqNo == 0
+//@   note the stored log of (start root -> end root) holds references to node positions, which are resolved against the FINALIZED key space; that is only right for an end root whose own nodes live there, i.e. whose pending sequence number - looked up for the END root of the pair - is zero. A second candidate root of a not yet finalized version (sequence number != 0) is refused (ErrWriteLogNotFound) instead of being served with the sibling candidate's nodes (seed C13_f looked the number up for the start root)
 
 // ---- chunk (multipart) commits vs Finalize (C06, C12) ----
 //
